@@ -116,6 +116,19 @@ pub fn run(ctx: &Ctx) -> Result<Evidence, String> {
         }
         docs.push(J::Obj(members));
     }
+    // documents deeper than any parser limit (built, not parsed): every location must still be
+    // addressable through its Normalized Path
+    for depth in [60usize, 100, 126, 127, 128, 129, 130, 200, 255, 256, 257, 300, 700] {
+        let mut d = J::Obj(vec![("leaf".into(), J::str("leaf")), ("l".into(), J::Arr(vec![J::int(1), J::Obj(vec![("k".into(), J::Null)])]))]);
+        for i in 0..depth {
+            d = match i % 3 {
+                0 => J::Obj(vec![("a".into(), d), ("s".into(), J::int(i as i64))]),
+                1 => J::Arr(vec![J::int(i as i64), d]),
+                _ => J::Obj(vec![("x y".into(), J::Arr(vec![])), ("n".into(), d)]),
+            };
+        }
+        docs.push(d);
+    }
     let reps = replacement_values();
     let seed = ctx.seed;
     // a finding about names the path must escape / JSON-pointer characters is keyed on the name
